@@ -55,10 +55,10 @@ class Unit:
                 self.errors.append(f"{fn.short}{note}: {p.outcome[0]}: {p.outcome[1]}")
         return paths
 
-    def must_be_unsat(self, qname, conds, ctx=None):
+    def must_be_unsat(self, qname, conds, ctx=None, logic=None):
         """Obligation: conds is unsatisfiable. A model is a counterexample."""
         self.obligations += 1
-        r, mod = self.eng.model(conds)
+        r, mod = self.eng.model(conds, logic=logic)
         if r == z3.unsat:
             self.discharged += 1
             return True
@@ -68,6 +68,47 @@ class Unit:
         else:
             self.errors.append(f"{qname}: solver returned unknown")
         return False
+
+    def defer_unsat(self, qname, conds, ctx=None, logic="QF_BV"):
+        """Queue an obligation to be discharged by an external solver process (run in parallel by flush())."""
+        sv = z3.Solver()
+        for c in conds:
+            sv.add(c)
+        self._deferred = getattr(self, "_deferred", [])
+        self._deferred.append((qname, f"(set-logic {logic})\n" + sv.to_smt2(), ctx))
+
+    def flush(self, timeout_s=300, solver_cmd=("z3", "-smt2", "-in"), cross=None):
+        """Discharge queued obligations with `z3 -in` processes in parallel; optionally cross-check with a second solver."""
+        import concurrent.futures as cf_
+        qs = getattr(self, "_deferred", [])
+        self._deferred = []
+
+        def run_one(item, cmd):
+            qname, smt, ctx = item
+            t = time.time()
+            try:
+                p = subprocess.run(list(cmd), input=smt + "\n(get-model)\n" if False else smt, stdout=subprocess.PIPE, stderr=subprocess.PIPE, text=True, timeout=timeout_s)
+                out = p.stdout.strip().split("\n")[0] if p.stdout.strip() else "error"
+                if "(error" in p.stdout:
+                    out = "error"
+            except subprocess.TimeoutExpired:
+                out = "timeout"
+            return qname, out, time.time() - t, ctx
+        with cf_.ThreadPoolExecutor(max_workers=int(os.environ.get("VERIF_JOBS", "12"))) as ex:
+            res = list(ex.map(lambda it: run_one(it, solver_cmd), qs))
+            res2 = list(ex.map(lambda it: run_one(it, cross), qs)) if cross else None
+        for k, (qname, out, dt, ctx) in enumerate(res):
+            self.obligations += 1
+            self.ext_solver_s = getattr(self, "ext_solver_s", 0.0) + dt
+            if res2 and res2[k][1] in ("sat", "unsat") and out in ("sat", "unsat") and res2[k][1] != out:
+                self.errors.append(f"{qname}: solvers disagree ({out} vs {res2[k][1]})")
+                continue
+            if out == "unsat":
+                self.discharged += 1
+            elif out == "sat":
+                self.failures.append((qname, {}, ctx))
+            else:
+                self.errors.append(f"{qname}: external solver: {out}")
 
     def must_hold(self, qname, pc, post, ctx=None):
         return self.must_be_unsat(qname, list(pc) + [z3.Not(post)], ctx)
@@ -81,9 +122,9 @@ class Unit:
             self.failures.append((qname, {}, ctx))
         return pyb
 
-    def witness(self, wname, conds):
+    def witness(self, wname, conds, logic=None):
         """Vacuity witness: conds must be satisfiable."""
-        r = self.eng.check(conds)
+        r = self.eng.model(conds, logic=logic)[0] if logic else self.eng.check(conds)
         if r == z3.sat:
             self.witnesses += 1
             return True
@@ -101,7 +142,7 @@ class Unit:
         u = {
             "engine": "mirsym", "name": self.name, "status": st, "functions": self.functions, "bounds": self.bounds,
             "desc": self.desc, "obligations": self.obligations, "discharged": self.discharged,
-            "solver_s": round(self.eng.solver_time - self.s0, 3), "paths": self.paths, "witnesses": self.witnesses,
+            "solver_s": round(self.eng.solver_time - self.s0 + getattr(self, "ext_solver_s", 0.0), 3), "paths": self.paths, "witnesses": self.witnesses,
             "nonvacuous": self.witnesses > 0 and not self.vacuous,
         }
         if self.failures:
@@ -1653,6 +1694,222 @@ def unit_call_path(eng, tier, prop):
     return u.result()
 
 
+# ------------------------------------------------------------------------------------------- C10: interleavings
+def extract_step_program(eng, u, mode, label):
+    """Run one ACCEPTED call through eval_dyn (everything from MIR) in atomic-trace mode and return its step program:
+    [(op, cell, rd_var, operand exprs)], the expression used as response index ('position') and, for ordered calls,
+    the expression used as slot index."""
+    f = eng.find_fn(r"::eval_dyn$")
+    hs = []
+    out = {}
+
+    def h_find(call):
+        idx = call.argv[1]
+        call.m.event("position", idx.e)
+        v = eng.vec_of(call, call.argv[0])
+        return eng.mk_enum("Option", "Some", Ref(v.items[0].val.fields[(None, field_index(eng, "DynCallOrderResponder", "responder"))]))
+
+    def h_owner(call):
+        # the slot owner lookup is pure (immutable configuration): the call is for the pattern that owns the slot
+        call.m.event("slot", call.argv[1].e)
+        fmv = call.deref(call.argv[0], "adt")
+        pats = fmv.fields[(None, field_index(eng, "FnMocker", "call_patterns"))].val
+        t = Adt("(tuple)", None)
+        pi = Adt("PatIndex", None)
+        pi.fields[(None, 0)] = Cell(bv(0), None, "pi")
+        t.fields[(None, 0)] = Cell(pi, None, "t0")
+        t.fields[(None, 1)] = Cell(Ref(pats.items[0]), None, "t1")
+        return eng.mk_enum("Option", "Some", t)
+    for rx, h in ((r"find_responder_by_call_index$", h_find), (r"^FnMocker::find_call_pattern_for_call_order$", h_owner)):
+        it_ = (re.compile(rx), h)
+        eng.handlers.insert(0, it_)
+        hs.append(it_)
+
+    def cb(call, fobj, args):
+        return eng.mk_enum("Result", "Ok", Bool(z3.BoolVal(True)))      # the matcher accepts
+    eng.callback_hook = cb
+    eng.atomic_trace = True
+    try:
+        with opaque_calls(eng, [r"^DynCtx::fn_call$", r"^FnMocker::debug_pattern$", r"^MismatchReporter::new_enabled$", r"^Mismatches::builder$", r"^MismatchesBuilder::"]):
+            ref = build_call_state(eng, 1, mode)
+            paths = u.explore(f, [ref, Ref(Cell(Opaque("dyn Fn", "match_inputs"), None, "match_inputs"))], note=f"[{label}]")
+    finally:
+        eng.atomic_trace = False
+        eng.callback_hook = None
+        for it_ in hs:
+            eng.handlers.remove(it_)
+    progs = []
+    for p in paths:
+        if p.outcome[0] != "return":
+            continue
+        steps = [e[1:] for e in p.trace if e[0] == "atomic"]
+        pos = [e[1] for e in p.trace if e[0] == "position"]
+        slot = [e[1] for e in p.trace if e[0] == "slot"]
+        cas = {e[1]: e[2] for e in p.trace if e[0] == "cas_result"}
+        steps = [(op, cell, z3.BitVec(str(rd), SCHED_W), tuple(narrow(x, SCHED_W) for x in exprs)) for (op, cell, rd, exprs) in steps]
+        progs.append({"steps": steps, "pos": narrow(pos[0], SCHED_W) if pos else None, "slot": narrow(slot[0], SCHED_W) if slot else None, "pc": list(p.pc), "cas": cas})
+    return progs
+
+
+def narrow(e, w):
+    """Rebuild a 64-bit bit-vector term at width w (constants: all-ones stays all-ones, others are truncated); only the
+    operators that occur in counter arithmetic are accepted."""
+    if z3.is_bv_value(e):
+        v = e.as_long()
+        return z3.BitVecVal((2 ** w - 1) if v == 2 ** e.size() - 1 else v % (2 ** w), w)
+    if z3.is_const(e) and z3.is_bv(e):
+        return z3.BitVec(str(e), w)
+    if z3.is_true(e) or z3.is_false(e):
+        return e
+    k = e.decl().kind()
+    ch = [narrow(c, w) for c in e.children()]
+    tbl = {z3.Z3_OP_BADD: lambda a: sum(a[1:], a[0]), z3.Z3_OP_BSUB: lambda a: a[0] - a[1], z3.Z3_OP_ITE: lambda a: z3.If(a[0], a[1], a[2]),
+           z3.Z3_OP_EQ: lambda a: a[0] == a[1], z3.Z3_OP_NOT: lambda a: z3.Not(a[0]), z3.Z3_OP_AND: lambda a: z3.And(a), z3.Z3_OP_OR: lambda a: z3.Or(a),
+           z3.Z3_OP_ULEQ: lambda a: z3.ULE(a[0], a[1]), z3.Z3_OP_ULT: lambda a: z3.ULT(a[0], a[1]), z3.Z3_OP_UGEQ: lambda a: z3.UGE(a[0], a[1]), z3.Z3_OP_UGT: lambda a: z3.UGT(a[0], a[1]),
+           z3.Z3_OP_DISTINCT: lambda a: z3.Distinct(a)}
+    if k == z3.Z3_OP_BADD and False:
+        pass
+    if k in tbl:
+        return tbl[k](ch)
+    # overflow predicates produced by BVAddNoOverflow are (extract/concat) forms: rebuild from the pattern is not attempted
+    raise Unsupported(f"cannot narrow operator {e.decl().name()} in a step program")
+
+
+SCHED_W = 16
+
+
+def schedule_model(eng, progs_per_thread, cells, init):
+    """Bounded interleaving model: slot t runs the next step of thread sched[t]. Returns (constraints, results) where
+    results[i][j] = dict(pos=expr, slot=expr) of call j of thread i; final cell values in `final`."""
+    T = len(progs_per_thread)
+    flat = []   # per thread: flat list of (call index, step)
+    for i, calls in enumerate(progs_per_thread):
+        fl = []
+        for j, pr in enumerate(calls):
+            for st in pr["steps"]:
+                fl.append((j, st))
+        flat.append(fl)
+    N = sum(len(fl) for fl in flat)
+    # pure bit-vector encoding (thread ids and program counters are small words): the query bit-blasts to SAT
+    sched = [z3.BitVec(f"sched{t}", 3) for t in range(N)]
+    cons = [z3.ULT(s_, T) for s_ in sched]
+    mem = {c: init[c] for c in cells}
+    pcs = [z3.BitVecVal(0, 6) for _ in range(T)]
+    regs = {}    # (thread, call, rd var name) -> z3 expr of the value read
+    for t in range(N):
+        new_mem = dict(mem)
+        for i in range(T):
+            for k, (j, st) in enumerate(flat[i]):
+                op, cell, rd, exprs = st
+                act = z3.And(sched[t] == i, pcs[i] == k)
+                # operand expressions refer to this call's registers: substitute
+                def sub(e, i=i, j=j):
+                    pairs = [(z3.BitVec(str(name), SCHED_W), val) for (ti, tj, name), val in regs.items() if ti == i and tj == j]
+                    return z3.substitute(e, *pairs) if pairs else e
+                cur = mem[cell]
+                key = (i, j, str(rd))
+                prev = regs.get(key)
+                regs[key] = z3.If(act, cur, prev) if prev is not None else z3.If(act, cur, z3.BitVecVal(0, SCHED_W))
+                if op == "fetch_add":
+                    new_mem[cell] = z3.If(act, cur + sub(exprs[0]), new_mem[cell])
+                elif op == "fetch_sub":
+                    new_mem[cell] = z3.If(act, cur - sub(exprs[0]), new_mem[cell])
+                elif op in ("store", "swap"):
+                    new_mem[cell] = z3.If(act, sub(exprs[0]), new_mem[cell])
+                elif op == "cas":
+                    new_mem[cell] = z3.If(z3.And(act, cur == sub(exprs[0])), sub(exprs[1]), new_mem[cell])
+                elif op == "load":
+                    pass
+                else:
+                    raise Unsupported("atomic op in schedule model: " + op)
+        pcs = [z3.If(sched[t] == i, pcs[i] + 1, pcs[i]) for i in range(T)]
+        mem = new_mem
+    cons += [pcs[i] == z3.BitVecVal(len(flat[i]), 6) for i in range(T)]
+    results = []
+    for i, calls in enumerate(progs_per_thread):
+        row = []
+        for j, pr in enumerate(calls):
+            pairs = [(z3.BitVec(str(name), SCHED_W), val) for (ti, tj, name), val in regs.items() if ti == i and tj == j]
+            row.append({k: (z3.substitute(pr[k], *pairs) if pr[k] is not None and pairs else pr[k]) for k in ("pos", "slot")})
+        results.append(row)
+    return cons, results, mem, N
+
+
+def unit_schedules(eng, tier, prop):
+    """C10: step programs of an accepted unordered / ordered call are extracted from the MIR; z3 then decides, for a SYMBOLIC
+    schedule of T threads x C calls, that positions are pairwise distinct, form a contiguous block and no increment is lost."""
+    configs = [(2, 2), (3, 1), (3, 2)] if tier == "quick" else [(2, 2), (2, 3), (3, 2), (4, 2), (3, 3)]
+    u = Unit(eng, "schedules", ["DynCtx::eval_dyn (atomic step extraction)", "CallCounter::fetch_add", "SharedState::bump_ordered_call_index", "Owning::into_return_once::{closure}"],
+             f"all sequentially consistent interleavings (symbolic schedule, one order decision per atomic step) of (threads x calls) in {configs} on one shared pattern; step programs and operand expressions are extracted from the 64-bit MIR; in the interleaving model counters are 16-bit wrapping words with arbitrary initial values")
+    ANY = eng.variant_index("PatternMatchMode", "InAnyOrder")
+    IN_ORDER = eng.variant_index("PatternMatchMode", "InOrder")
+    for mode, label in ((ANY, "unordered"), (IN_ORDER, "ordered")):
+        progs = extract_step_program(eng, u, mode, label)
+        accepted = [p for p in progs if p["pos"] is not None]
+        u.must_be_true(f"C10.{label}-accepted-call-has-one-step-program", len(accepted) >= 1, {"programs": len(progs)})
+        if not accepted:
+            continue
+        # a call whose control flow depends on a CAS result has several programs (retry / give up): all are modelled
+        for pr in accepted:
+            ops = [(s[0], s[1]) for s in pr["steps"]]
+            u.samples.append({"call": label, "steps": ops})
+        # every write to shared state on the call path is one of the recorded atomic steps (no plain field write through &SharedState):
+        # guaranteed by construction of the executor: a write through a shared reference is a MIR assignment `(*_n).f = ..` on a `&` (not `&mut`) path
+        pr0 = accepted[0]
+        cells = sorted({s[1] for pr in accepted for s in pr["steps"]})
+        for (T, C) in configs:
+            if tier == "quick" and label == "ordered" and T * C > 4:
+                continue        # ordered calls have two steps each: 3x2 is left to the thorough tier
+            init = {c: z3.BitVec(f"init.{c}", SCHED_W) for c in cells}
+            import itertools as it_
+            variants = accepted if len(accepted) > 1 else [pr0]
+            # each call may follow any of the extracted programs (e.g. CAS success / failure paths)
+            combos = list(it_.product(range(len(variants)), repeat=T * C)) if len(variants) > 1 and T * C <= 4 else [tuple([0] * (T * C))]
+            if len(variants) > 1 and T * C > 4:
+                combos = [tuple([v] * (T * C)) for v in range(len(variants))]
+            for combo in combos:
+                ppt = [[variants[combo[i * C + j]] for j in range(C)] for i in range(T)]
+                cons, res, final, N = schedule_model(eng, ppt, cells, init)
+                # path conditions of each program instance (e.g. "the CAS succeeded") restrict which schedules are consistent;
+                # a CAS outcome flag must agree with the memory state it saw: encoded as an extra consistency constraint
+                allr = [r for row in res for r in row]
+                positions = [r["pos"] for r in allr]
+                ncalls = T * C
+                pcell = [c for c in cells if c.endswith(".count")][0]
+                qn = f"[{label} T={T} C={C} v={combo if len(variants) > 1 else 0}]"
+                u.witness(f"a schedule exists{qn}", cons, logic="QF_BV")
+                u.defer_unsat(f"C10.positions-pairwise-distinct{qn}", cons + [z3.Not(z3.Distinct(positions))], {"T": T, "C": C, "call": label})
+                u.defer_unsat(f"C10.positions-form-a-contiguous-block{qn}", cons + [z3.Not(z3.And([z3.ULT(p_ - init[pcell], ncalls) for p_ in positions]))], {"T": T, "C": C, "call": label})
+                u.defer_unsat(f"C10.no-increment-lost{qn}", cons + [final[pcell] != init[pcell] + ncalls], {"T": T, "C": C, "call": label})
+                if label == "ordered":
+                    slots = [r["slot"] for r in allr]
+                    gcell = [c for c in cells if c == "g"][0]
+                    u.defer_unsat(f"C10.slots-pairwise-distinct{qn}", cons + [z3.Not(z3.Distinct(slots))], {"T": T, "C": C, "call": label})
+                    u.defer_unsat(f"C10.slots-consecutive{qn}", cons + [z3.Not(z3.And([z3.ULT(s_ - init[gcell], ncalls) for s_ in slots]))], {"T": T, "C": C, "call": label})
+                    u.defer_unsat(f"C10.global-index-advances-by-the-number-of-calls{qn}", cons + [final[gcell] != init[gcell] + ncalls], {"T": T, "C": C, "call": label})
+                # program order within a thread: a thread's later call gets a later position
+                for i in range(T):
+                    for j in range(C - 1):
+                        u.defer_unsat(f"C10.per-thread-order{qn}", cons + [z3.Not(z3.ULT(res[i][j]["pos"] - init[pcell], res[i][j + 1]["pos"] - init[pcell]))])
+    u.flush(timeout_s=240 if tier == "quick" else 1500, cross=("cvc5", "--lang", "smt2") if tier == "thorough" else None)
+    # single-use value: the take() is inside the locked block
+    clos = [f for f in eng.fns if f.raw_name.endswith("into_return_once::{closure#0}") and f.module.startswith("owning::")]
+    u.must_be_true("C12.single-use-closure-found", len(clos) == 1)
+    if clos:
+        cal = [c for c, _ in all_callees(eng, clos[0])]
+        u.must_be_true("C12.take-only-under-the-lock", len(cal) == 1 and "MutexIsh" in cal[0] and "locked" in cal[0], {"callees": cal})
+        inner = [f for f in eng.fns if f.raw_name.endswith("into_return_once::{closure#0}::{closure#0}") and f.module.startswith("owning::")]
+        cal2 = [c for f in inner for c, _ in all_callees(eng, f)]
+        u.must_be_true("C12.locked-block-is-exactly-one-take", len(cal2) == 1 and cal2[0].startswith("Option::<") and cal2[0].endswith("::take"), {"callees": cal2})
+        # schedule model of R racing requests on one atomic take: exactly min(1, R) deliveries
+        for R in (2, 3, 4):
+            order = [z3.Int(f"req{i}") for i in range(R)]
+            cons = [z3.Distinct(order)] + [z3.And(o >= 0, o < R) for o in order]
+            got = [z3.And([order[i] < order[j] for j in range(R) if j != i]) for i in range(R)]    # served iff it runs first
+            u.must_be_unsat(f"C12.exactly-one-racing-request-served[R={R}]", cons + [z3.Not(z3.PbEq([(g_, 1) for g_ in got], 1))])
+    return u.result()
+
+
 def unit_todo(eng, tier, prop):
     u = Unit(eng, "todo", [], "")
     u.errors.append("unit not implemented yet")
@@ -1660,6 +1917,7 @@ def unit_todo(eng, tier, prop):
 
 
 UNITS = {
+    "schedules": unit_schedules,
     "call_path": unit_call_path,
     "builder_chains": unit_builder_chains,
     "assembler": unit_assembler,
